@@ -12,7 +12,9 @@ EXPLANATION = ("Bounded SPSC queue. R1: per atomic position field, single storin
                "reservation passes a 'does not fit' guard with outcome false; guard normalises to capacity - T(writer - "
                "reader_cache) < n; the two copies of the guard agree and the acquire reload lies between them; empty() likewise. "
                "R5: mask = capacity-1, capacity = next_power_of_two, storage = k*capacity with k>=2, returned pointers are "
-               "storage + (pos & mask). Checked for T in {size_t,uint32_t,uint16_t,uint8_t}.")
+               "storage + (pos & mask). Checked for T in {size_t,uint32_t,uint16_t,uint8_t}."
+               ' R5e: compile-time witness (static_assert table evaluated by the compiler) for is_power_of_two / max_power_of_two. R5f (= C20.R6b): every mmap call asks for the one full length, which covers request + header + alignment.')
+TECHNIQUE = 'static analysis: custom checker over clang AST/CFG facts (memory orders, thread roles, path rules) plus a compile-time witness (static_assert table) for the constexpr power-of-two helpers'
 NOT_DECIDED = ("Sufficiency of these conditions: linearizability over all interleavings, the batch arithmetic, wrap-around "
                "of the counters as values. Those need a model checker / prover over the queue's state space.")
 ASSUMPTIONS = ["single producer thread and single consumer thread per queue (API contract)",
